@@ -144,7 +144,7 @@ struct State {
     last_send: HashMap<(SocketAddr, SocketAddr), u64>,
     last_deliver: HashMap<(SocketAddr, SocketAddr), u64>,
     bytes_from: HashMap<SocketAddr, u64>,
-    /// black-holed addresses: datagrams to them vanish even though nothing is bound
+    /// black-holed addresses: datagrams to and from them vanish (a crashed host)
     blackholes: HashSet<SocketAddr>,
 }
 
@@ -407,7 +407,7 @@ impl Fabric {
                 }
             }
         }
-        if st.blackholes.contains(&dgram.dst) {
+        if st.blackholes.contains(&dgram.dst) || st.blackholes.contains(&dgram.src) {
             st.stats.dropped_fault += 1;
             return Ok(());
         }
